@@ -1,5 +1,6 @@
 import YatimlModel.Props.C04
 import YatimlModel.Lemmas.CallsTyped
+import YatimlModel.Lemmas.Conforms
 /-!
 # C01 — a loaded value always conforms to the declared type
 
@@ -206,5 +207,32 @@ theorem C01_every_constructor_call_typed (env : Env) (tbl : List Entry) (fuel : 
     | ok co =>
       rw [hc] at this
       simpa [loadCalls] using key co.calls this
+
+/-- **A loaded value conforms to the declared type.**  For every class table consistent with Python's
+MRO (`EnvWF`), every resolver table with core tags only (`TableCore`, proved of the regenerated Loader
+table: `C04.loaderTable_core`), every node, every declared type whose dict key types are `str` or a class,
+every fuel: if the load succeeds, the value is of the declared type — built-ins of exactly their kind,
+lists and dicts element-wise with keys, a Union by one of its members, a class by an instance of it or
+of a registered class derived from it.  Together with `C01_every_constructor_call_typed` (the
+attributes of every constructed object, at any depth) this is conformance all the way down. -/
+theorem C01_loaded_value_conforms (env : Env) (tbl : List Entry) (htbl : TableCore tbl) (hwf : EnvWF env)
+    (fuel : Nat) (n : Node) (T : Ty) (hT : DictKeysOk T) (o : LoadOut)
+    (h : loadNode env tbl fuel n T = .ok o) : typeMatches env o.value T = true :=
+  loadNode_conforms env tbl htbl hwf fuel n T hT o h
+
+/-- the hypotheses are satisfiable: a table with a class and a subclass -/
+example (ext : Ext) :
+    EnvWF ⟨[⟨"A", [], [], .plain, false, [], [], none, none, none, fun _ => false⟩], ext⟩ := by
+  refine ⟨by simp [Env.find], ?_, ?_⟩
+  · intro c d dd hd hf
+    induction hd with
+    | refl c => exact Or.inl rfl
+    | step s hs _ ih =>
+      simp [Env.directSubclasses] at hs
+  · intro e ee d dd c he hc
+    simp only [Env.find, List.find?_cons, List.find?_nil] at he
+    split at he
+    · simp only [Option.some.injEq] at he; subst he; simp at hc
+    · cases he
 
 end YatimlModel.C01
